@@ -1112,6 +1112,32 @@ def call_method(I, obj, name, args, kwargs):
             ctx.wrote("$mhas", idt)
             ctx.wrote("$len", idt)
             return None
+    if isinstance(obj, SV) and isinstance(obj.ty, TSeq) and name == "copy" and not args:
+        from .loops import copy_seq
+
+        return copy_seq(I, obj, obj.ty.kind)
+    if isinstance(obj, SV) and isinstance(obj.ty, TSeq) and obj.ty.kind == "set" and name in ("add", "discard"):
+        # a set is an injective enumeration of its members in arbitrary order: after add/discard the new enumeration is
+        # ANY enumeration whose length reflects whether the item was a member (event tasks.add / tasks.discard)
+        idt = ctx.ref_id(obj)
+        item = ctx.to_val(args[0])
+        n = seq_len(I, obj)
+        items = z3.Select(ctx.field_array("$item"), idt)
+        k = z3.Int("sk")
+        member = z3.Exists([k], z3.And(0 <= k, k < n, z3.Select(items, k) == item.t))
+        new_items = fresh("set_items", z3.ArraySort(z3.IntSort(), Z.Val))
+        new_n = fresh("set_len", z3.IntSort())
+        if name == "add":
+            ctx.assume(new_n == z3.If(member, n, n + 1))
+        else:
+            ctx.assume(new_n == z3.If(member, n - 1, n))
+        ctx.assume(new_n >= 0)
+        ctx.heap["$item"] = z3.Store(ctx.field_array("$item"), idt, new_items)
+        ctx.heap["$len"] = z3.Store(ctx.field_array("$len"), idt, new_n)
+        ctx.wrote("$item", idt)
+        ctx.wrote("$len", idt)
+        ctx.emit("tasks." + name, obj, item)
+        return None
     if isinstance(obj, SV) and isinstance(obj.ty, TSeq) and obj.ty.kind == "list":
         n = seq_len(I, obj)
         if name == "append":
